@@ -98,6 +98,12 @@ func (c *Ctx) fld(role string) string {
 		}
 		for i := 0; i < st.NumFields(); i++ {
 			f := st.Field(i)
+			if !f.Embedded() && partFieldX4(t.Type(), f) {
+				// fields grouped into a small internal type that is held by value in a field of its own
+				// (`cipher eexecCipher` with the state `r` inside) are parts of the type as well (ext_x4.go)
+				collect(f.Type().(*types.Named).Obj(), depth+1)
+				continue
+			}
 			if f.Embedded() {
 				// fields grouped into an unexported struct that is embedded by value are still fields of the type
 				if en, ok := f.Type().(*types.Named); ok && en.Obj().Pkg() == t.Pkg() && !en.Obj().Exported() {
